@@ -64,7 +64,7 @@ def literals():
 LITS = literals()
 LIT_BY_NAME = {l['name']: l for l in LITS}
 PATHS = [('a',), ('r', 'a'), ('r', 'r', 'a'), ('note',), ('order',), ('android',), ('nota',), ('andy',), ('r', 'r'), ('a', 'a'), ('a', 'r', 'a'), ('p', 'q', 'a')]
-VALUATIONS = ['absent', 'null', 'marker', 'equal', 'below', 'above', 'other-kind']
+VALUATIONS = ['raising', 'other-kind', 'absent', 'null', 'marker', 'equal', 'below', 'above']
 
 
 def val_for(L, v):
@@ -83,6 +83,15 @@ def val_for(L, v):
         return L['above']
     if v == 'other-kind':
         return L['other']
+    if v == 'raising':
+        # a value of the literal's kind whose comparison with the literal raises inside Python (another unit; a date-time with
+        # another notion of time zone): the row is a don't-care, but it is evaluated BEFORE the rows that are pinned
+        lit = L['lit']
+        if lit[0] == 'num' and lit[2] is not None:
+            return N.num(lit[1] + 1.0, 'zz' if lit[2] != 'zz' else 'yy')
+        if lit[0] == 'num':
+            return N.num(lit[1] + 1.0, 'kg') if lit[1] == lit[1] and lit[1] not in (float('inf'), float('-inf')) else None
+        return None
     raise HarnessError(v)
 
 
